@@ -562,6 +562,68 @@ def nested_rule(run, quick):
     run.extra["nested_calls_checked_against_the_rule"] = len(coq_cases)
 
 
+def body_calls_rule(run, quick):
+    """a call to a template whose body holds calls (plain names and arguments) to other templates against
+    Model.FlatCall.body_calls_result (c04_calls_in_a_template_body_are_expanded_after_substitution)."""
+    rng = run.rng
+    cases = []
+    for _ in range(400 if quick else 8000):
+        def flatbody():
+            parts = []
+            for _ in range(rng.randint(0, 4)):
+                r = rng.random()
+                parts.append(rng.choice(FLAT_TEXT) if r < 0.5 else
+                             ("{{{%s}}}" % rng.choice(FLAT_KEYS) if r < 0.8 else "{{{%s|%s}}}" % (rng.choice(FLAT_KEYS), rng.choice(FLAT_DEFAULTS))))
+            return "".join(parts)
+
+        def obody():
+            parts = []
+            for _ in range(rng.randint(1, 5)):
+                r = rng.random()
+                if r < 0.35:
+                    parts.append(rng.choice(FLAT_TEXT))
+                elif r < 0.6:
+                    parts.append("{{{%s}}}" % rng.choice(FLAT_KEYS) if rng.random() < 0.7 else "{{{%s|%s}}}" % (rng.choice(FLAT_KEYS), rng.choice(FLAT_DEFAULTS)))
+                else:
+                    nm = rng.choice(["i", "j", "I", "nosuch"])
+                    parts.append("{{" + "|".join([nm] + [rng.choice(FLAT_ARGS) for _ in range(rng.randint(0, 3))]) + "}}")
+            return "".join(parts)
+        libn = [["O", obody(), False]] + [[nm, flatbody(), False] for nm in ("I", "J") if rng.random() < 0.85]
+        page = "{{" + "|".join(["o"] + [rng.choice(FLAT_ARGS) for _ in range(rng.randint(0, 3))]) + "}}"
+        cases.append({"lib": libn, "page": page, "opts": {}, "title": "Tt"})
+    res = lib.run_impl("expandlib", cases, shards=lib.NCPU)
+    coq_cases, idx = [], []
+    for i, (c, r) in enumerate(zip(cases, res)):
+        run.count({"bodycalls": c["lib"], "page": c["page"]}, c["lib"][0][1].count("{{") >= 2, "body-calls")
+        if r.get("outcome") != "ok":
+            run.property_failure("bodycalls:%s:%s" % (r.get("outcome"), r.get("exc", "")), "expand() did not return normally: %r" % (r,), c)
+            continue
+        pa = r["page_ast"]
+        if len(pa) != 1 or isinstance(pa[0], int) or pa[0][0] != "T" or any(not isinstance(y, int) for a in pa[0][1] for y in a):
+            run.correspondence_break("a generated call was not read as one call with plain arguments", c, page_ast=pa)
+            continue
+        coq_cases.append("(%s, %s, %s)" % (G.coq_lib([[t[0], t[1], t[2]] for t in r["lib_ast"]]), clist(pa[0][1][1:], G.coq_enc, "enc"), cstr(r["out"])))
+        idx.append(i)
+    imports = IMPORTS + ["Model.FlatCall"]
+    ty = "list tpl * list enc * str"
+    outside, errs = lib.coq_eval_failing("c04b0", imports, ty, coq_cases, "fun '(l, a, o) => body_calls_call_ok parser_functions l [111] a", chunk=300)
+    for e in errs:
+        run.correspondence_break("model evaluation failed (calls in bodies)", None, error=e)
+    run.extra["body_call_cases_outside_the_fragment"] = len(outside)     # e.g. a body call whose written name carries blanks
+    bad, errs = lib.coq_eval_failing("c04b", imports, ty, coq_cases, "fun '(l, a, o) => str_eqb (codes (body_calls_result l [111] a)) o", chunk=300)
+    for e in errs:
+        run.correspondence_break("model evaluation failed (body-calls rule)", None, error=e)
+    for b in bad:
+        if b in outside:
+            continue
+        c = cases[idx[b]]
+        want = lib.coq_eval_term(imports, "(fun '(l, a, o) => codes (body_calls_result l [111] a)) (%s)" % coq_cases[b])
+        run.property_failure("c04:body-calls-differ-from-the-transclusion-rule",
+                             "expand(%r) with templates %r gave %r; the rule (Model.FlatCall.body_calls_result) gives code points %s"
+                             % (c["page"], c["lib"], res[idx[b]]["out"], " ".join(want.split())[:300]), c)
+    run.extra["body_call_cases_checked_against_the_rule"] = len(coq_cases) - len(outside)
+
+
 def run(run):
     run.rule = ("acyclic template libraries (<=5 templates, bodies from the expansion grammar: text atoms with interior/"
                 "leading/trailing blanks and newlines, {{{n}}}, {{{n|default}}}, positional/named/numeric-named/duplicate "
@@ -594,6 +656,7 @@ def run(run):
     flat_rule(run, run.tier == "quick")
     if_rule(run, run.tier == "quick")
     nested_rule(run, run.tier == "quick")
+    body_calls_rule(run, run.tier == "quick")
     run.extra["traces_validated_against_impl"] = run.evaluations
 
 
